@@ -263,7 +263,11 @@ func (conn *Conn) send(call *Call) {
 		if conn.shutdown {
 			registered = false
 		}
-		delete(conn.pending, seq)
+		if !isStreaming {
+			// a stream message is not registered: the entry under its sequence number
+			// is the stream's own call, which must keep receiving
+			delete(conn.pending, seq)
+		}
 		if opening {
 			delete(conn.streams, seq)
 		}
